@@ -416,7 +416,11 @@ pub fn ref_label(
     match metadata {
         Metadata::None => RefLabel::Continue,
         Metadata::Raw(_) => RefLabel::Continue,
-        Metadata::Tramp { invoice, amt, .. } => {
+        Metadata::Tramp { invoice, amt, extra_before, .. } => {
+            // the amount record may also precede the invoice record (record order is free inside
+            // the metadata stream); the generator never emits two amount records
+            let moved = extra_before.iter().find(|r| r.0 == 33003).map(|r| AmtField::Bytes(r.1.clone()));
+            let amt = moved.as_ref().unwrap_or(amt);
             let payee = match invoice.payee {
                 Some(p) => p,
                 None => return RefLabel::Continue, // invalid signature: unusable metadata
